@@ -87,6 +87,12 @@ func validateJSONPatches(patches []byte) error {
 }
 
 func validateJSONPointer(pointer string) error {
+	// RFC 6901: a JSON pointer is either empty or starts with '/'. The patch library ignores whatever precedes the
+	// first '/', so "x/publicKey" would otherwise address the public keys without being caught below.
+	if pointer != "" && !strings.HasPrefix(pointer, "/") {
+		return fmt.Errorf("%s: invalid JSON pointer '%s'", patch.JSONPatch, pointer)
+	}
+
 	if strings.HasPrefix(pointer, "/"+document.ServiceProperty) {
 		return fmt.Errorf("%s: cannot modify services", patch.JSONPatch)
 	}
